@@ -89,13 +89,26 @@ theorem commandStage_step (rh : HookFn) (hrh : HookOK rh) (w : W) (cg : Oid) (li
 theorem useConn_valid (w : W) (o : Oid) (id : Nat) (inv : Inv w) (h : w.inter o = some id) : useConn w id = w :=
   useConn_live w id (inv.live o id h)
 
-theorem promptStage_step (w : W) (cg : Oid) (id : Nat) : Step w (promptStage w cg id) := by
+theorem promptStage_step (rh : HookFn) (hrh : HookOK rh) (w : W) (cg : Oid) (id : Nat) :
+    Step w (promptStage rh w cg id).1 := by
   unfold promptStage
+  simp only []
   split
   · exact Step.refl w
   · split
     · exact Step.refl w
-    · exact addOut_step _ _ _
+    · have s1 : Step w (rh (emit w (.tPrompt cg)) cg .prompt).1 := Step.trans (emit_same _ _).step (hrh _ _ _)
+      split
+      · exact s1
+      · split
+        · exact s1
+        · rename_i hv
+          intro inv
+          obtain ⟨inv2, r2⟩ := s1 inv
+          have hval : (rh (emit w (.tPrompt cg)) cg .prompt).1.inter cg = some id := by simpa using hv
+          rw [useConn_valid _ cg id inv2 hval]
+          obtain ⟨inv3, r3⟩ := addOut_step _ cg ">_" inv2
+          exact ⟨inv3, r2.trans r3⟩
 
 theorem plainCommand_step (rh : HookFn) (hrh : HookOK rh) (w : W) (cg : Oid) (id : Nat) (line : String) :
     Step w (plainCommand rh w cg id line).1 := by
@@ -118,7 +131,7 @@ theorem plainCommand_step (rh : HookFn) (hrh : HookOK rh) (w : W) (cg : Oid) (id
           have hval : (commandStage rh (inputStage rh w cg line b).1 cg line).1.inter cg = some id := by
             simpa using hv2
           rw [useConn_valid _ cg id inv2 hval]
-          obtain ⟨inv3, r3⟩ := promptStage_step _ cg id inv2
+          obtain ⟨inv3, r3⟩ := promptStage_step rh hrh _ cg id inv2
           exact ⟨inv3, r2.trans r3⟩
 
 theorem inputToCommand_step (rh : HookFn) (hrh : HookOK rh) (w : W) (cg : Oid) (id : Nat) (line tag : String) :
@@ -137,7 +150,7 @@ theorem inputToCommand_step (rh : HookFn) (hrh : HookOK rh) (w : W) (cg : Oid) (
       have hval : (rh (emit (mapConn w id clearInputTo) (.tIt cg tag line)) cg (.it tag)).1.inter cg = some id := by
         simpa using hv
       rw [useConn_valid _ cg id inv2 hval]
-      obtain ⟨inv3, r3⟩ := promptStage_step _ cg id inv2
+      obtain ⟨inv3, r3⟩ := promptStage_step rh hrh _ cg id inv2
       exact ⟨inv3, r2.trans r3⟩
 
 theorem serveCommand_step (rh : HookFn) (hrh : HookOK rh) (w : W) (c0 : Conn) :
